@@ -31,6 +31,22 @@ pub enum Sig {
 
 pub const BASIC_CODES: &[u8] = b"ybnqiuxtdsogh";
 
+thread_local! {
+    static GV_QUIRKS: std::cell::Cell<(bool, bool)> = const { std::cell::Cell::new((false, false)) };
+}
+
+/// Model of two LISTED deviations of the library under test from the GVariant specification, switched on only to predict the
+/// library's bytes for values that touch them (so that any OTHER difference in such values still shows):
+/// .0 booleans are 4 bytes aligned to 4; .1 fixed-size tuples / dict entries are not padded at the end to their alignment.
+/// Off (the specification) by default and for every oracle verdict.
+pub fn set_gv_quirks(bool_is_4_bytes: bool, fixed_tuples_not_padded: bool) {
+    GV_QUIRKS.with(|q| q.set((bool_is_4_bytes, fixed_tuples_not_padded)));
+}
+
+pub fn gv_quirks() -> (bool, bool) {
+    GV_QUIRKS.with(|q| q.get())
+}
+
 #[derive(Clone, Copy, Debug, PartialEq, Eq)]
 pub enum SigErr {
     TooLong,
@@ -156,6 +172,7 @@ impl Sig {
     /// GVariant alignment.
     pub fn align_gv(&self) -> usize {
         match self {
+            Sig::B if gv_quirks().0 => 4,
             Sig::Y | Sig::B | Sig::S | Sig::O | Sig::G => 1,
             Sig::N | Sig::Q => 2,
             Sig::I | Sig::U | Sig::H => 4,
@@ -169,6 +186,7 @@ impl Sig {
     /// GVariant fixed size, if the type is fixed-size.
     pub fn fixed_size_gv(&self) -> Option<usize> {
         match self {
+            Sig::B if gv_quirks().0 => Some(4),
             Sig::Y | Sig::B => Some(1),
             Sig::N | Sig::Q => Some(2),
             Sig::I | Sig::U | Sig::H => Some(4),
@@ -184,6 +202,9 @@ impl Sig {
                     let al = f.align_gv();
                     pos = (pos + al - 1) / al * al;
                     pos += sz;
+                }
+                if gv_quirks().1 {
+                    return Some(pos);
                 }
                 let al = self.align_gv();
                 Some((pos + al - 1) / al * al)
